@@ -477,6 +477,52 @@ func runC16(args []string) error {
 		return err
 	}
 	sum.CasesFiles = names
+	// ---- which transactions take the read path: every combination of up to two operations per branch ----
+	{
+		ro := &CasesFile{Requires: []string{"Model.Bytes", "Model.Obs", "Model.Validate", "Run.C16Run"}, CaseType: "rocase", Check: "ro_check", Show: "ro_model"}
+		mkop := func(k int) (*regattapb.RequestOp, string) {
+			switch k {
+			case 0:
+				return &regattapb.RequestOp{Request: &regattapb.RequestOp_RequestRange{RequestRange: &regattapb.RequestOp_Range{Key: []byte("k")}}}, "TRange 1 0"
+			case 1:
+				return &regattapb.RequestOp{Request: &regattapb.RequestOp_RequestPut{RequestPut: &regattapb.RequestOp_Put{Key: []byte("k"), Value: []byte("v")}}}, "TPut 1 1"
+			case 2:
+				return &regattapb.RequestOp{Request: &regattapb.RequestOp_RequestDeleteRange{RequestDeleteRange: &regattapb.RequestOp_DeleteRange{Key: []byte("k")}}}, "TDel 1 0"
+			}
+			return &regattapb.RequestOp{}, "TUnset"
+		}
+		var lists [][]int
+		lists = append(lists, nil)
+		for a := 0; a < 4; a++ {
+			lists = append(lists, []int{a})
+			for b := 0; b < 4; b++ {
+				lists = append(lists, []int{a, b})
+			}
+		}
+		for _, su := range lists {
+			for _, fa := range lists {
+				req := &regattapb.TxnRequest{Table: []byte("t")}
+				var cs, cfl []string
+				for _, k := range su {
+					o, c := mkop(k)
+					req.Success = append(req.Success, o)
+					cs = append(cs, c)
+				}
+				for _, k := range fa {
+					o, c := mkop(k)
+					req.Failure = append(req.Failure, o)
+					cfl = append(cfl, c)
+				}
+				ro.Add(fmt.Sprintf("{| ro_succ := %s; ro_fail := %s; ro_impl := %s |}", cList(cs), cList(cfl), oBool(req.IsReadonly())), fmt.Sprint(su, fa))
+				sum.Evaluations++
+			}
+		}
+		rnames, err := ro.Write(rf.Out, "c16_readpath", 500)
+		if err != nil {
+			return err
+		}
+		sum.CasesFiles = append(sum.CasesFiles, rnames...)
+	}
 	return sum.write(rf.Out, "c16")
 }
 
